@@ -1,9 +1,9 @@
-\* attribute alphabet: push pop set setroot del use_or_* switch_mode execute_steps; 2 names + failed, 2 values
+\* attribute alphabet with 1 name + failed, 2 values: length 4 below feature+scenario
 INIT Init
 NEXT Next
 CONSTANTS
-  OpsAt <- Ops3333
-  UNames = {1, 2}
+  OpsAt <- Ops0040
+  UNames = {1}
   Vals = {1, 2}
   WithFailed = TRUE
   WithRoot = TRUE
